@@ -1,6 +1,6 @@
 (* C16 -- element/attribute read API (partial).  Only statements, `exact` proofs and Print Assumptions. *)
 From LolModel Require Import Machine Selectors Rewriter.
-From LolProofs Require Import TokenLaws AttrApi.
+From LolProofs Require Import TokenLaws AttrApi Validators.
 From Coq Require Import List.
 Import ListNotations.
 
@@ -42,6 +42,11 @@ Proof. exact remove_attribute_filters. Qed.
 Theorem C16_invalid_attribute_names_are_inert :
   forall t n v e, attr_name_check (lower_bytes n) = Some e -> stt_get_attr t n = None /\ stt_set_attr t n v = inr e /\ stt_remove_attr t n = t.
 Proof. exact invalid_attribute_names_are_inert. Qed.
+(* which names the by-name accessors accept: exactly the non-empty names without whitespace, '/', '>' or '=' (the byte set
+   is regenerated from Attribute::name_from_string on every run), so every other attribute name can be looked up *)
+Theorem C16_lookup_accepts_every_name_without_delimiters :
+  forall c, existsb (N.eqb c) ATTR_NAME_FORBIDDEN = spec_attr_name_delimiter c.
+Proof. exact attr_name_validator_is_the_delimiter_set. Qed.
 Example C16_first_duplicate_example :
   let t := mkStT (bs "a") [mkAt (bs "ID") (bs "1") None None; mkAt (bs "x") (bs "") None None; mkAt (bs "id") (bs "2") None None] Html false None None (mkR 0 0) 0%N in
   stt_get_attr t (bs "iD") = Some (bs "1") /\ stt_get_attr t (bs "X") = Some [] /\ stt_get_attr t (bs "y") = None
@@ -57,3 +62,4 @@ Print Assumptions C16_get_attribute_none_iff_no_match.
 Print Assumptions C16_set_attribute_in_place_or_append.
 Print Assumptions C16_remove_attribute_filters.
 Print Assumptions C16_invalid_attribute_names_are_inert.
+Print Assumptions C16_lookup_accepts_every_name_without_delimiters.
